@@ -17,18 +17,42 @@ package dtls
 // Write hands data to the record layer only after the handshake has completed successfully.
 //@ func Conn.Write
 //@ watch Conn.Handshake Conn.writeApplicationData Conn.newApplicationDataPacket
-//@ requires args: wfConn(c)
+//@ requires args: wfConn(c) && c.writeDeadline != nil
 //@ ensures handshake-first: called("Conn.writeApplicationData") ==> called("Conn.Handshake") && retErr("Conn.Handshake", 0) == nil && calledBefore("Conn.Handshake", "Conn.writeApplicationData")
 //@ ensures packet-from-constructor: called("Conn.writeApplicationData") ==> called("Conn.newApplicationDataPacket")
 //@ ensures one-record-per-write: ncalls("Conn.writeApplicationData") <= 1
+// (engine limit: the element of the one-packet slice cannot be read back after the call, only its length)
+//@ ensures exactly-one-packet: called("Conn.writeApplicationData") ==> len(argAs("Conn.writeApplicationData", 2, []*dtlsflight.Packet(nil))) == 1 && ncalls("Conn.newApplicationDataPacket") == 1
+//@ ensures constructed-from-payload: called("Conn.newApplicationDataPacket") ==> sameSlice(argBytes("Conn.newApplicationDataPacket", 1), payload)
 //@ end
 
+// contextWithClose starts a goroutine that only reads the Conn and cancels the returned context (assumption).
+//@ func Conn.contextWithClose
+//@ trusted
+//@ ensures wf-kept: old(wfConn(c)) ==> wfConn(c)
+//@ ensures results: !isNil(result0) && result1 != nil
+//@ end
+
+// Handshake (goroutines, FSM) is not verified here; that it keeps the Conn well-formed is a listed assumption.
 //@ func Conn.Handshake
-//@ noinline
+//@ trusted
+//@ requires wf: wfConn(c)
+//@ ensures wf-kept: wfConn(c)
 //@ end
 
+// writeApplicationData: application records go out at the *current* local epoch (DTLS 1.2: every record header
+// is stamped with LocalEpoch before the batch is written; that LocalEpoch >= 1 after the handshake is the listed
+// FSM assumption), DTLS 1.3 data never reaches the DTLS 1.2 batch writer but the FSM's protected writer.
 //@ func Conn.writeApplicationData
-//@ noinline
+//@ watch Conn.writePacketsWithResult! ApplicationDataWriter.WriteApplicationData
+//@ requires args: wfConn(c) && forall(0, len(pkts), func(i int) bool { return pkts[i] != nil && pkts[i].Record != nil })
+//@ loop #1: current-epoch: epoch == old(CS(c).LocalEpoch()) && !called("Conn.writePacketsWithResult!")
+//@ loop #1: wf-kept: wfConn(c)
+//@ loop #1: stamped: idx > 0 ==> pkts[idx-1].Record.Header.Epoch == epoch
+//@ ensures dtls13-through-protected-writer: old(XV13(CS(c).LocalVersion)) ==> !called("Conn.writePacketsWithResult!")
+//@ ensures dtls12-through-batch-writer: !old(XV13(CS(c).LocalVersion)) ==> ncalls("Conn.writePacketsWithResult!") == 1 && !called("ApplicationDataWriter.WriteApplicationData")
+//@ ensures same-packets: called("Conn.writePacketsWithResult!") ==> sameSlice(argAs("Conn.writePacketsWithResult!", 2, pkts), pkts)
+//@ ensures same-packets-13: called("ApplicationDataWriter.WriteApplicationData") ==> sameSlice(argAs("ApplicationDataWriter.WriteApplicationData", 2, pkts), pkts)
 //@ end
 
 // DTLS 1.2 emit path: a packet that requests encryption is never returned as marshalled plaintext:
@@ -41,4 +65,56 @@ package dtls
 //@ ensures encrypt-implies-ciphertext: old(pkt.ShouldEncrypt) && result1 == nil ==> (called("CipherSuite.Encrypt") && retErr("CipherSuite.Encrypt", 1) == nil && sameSlice(result0, retBytes("CipherSuite.Encrypt", 0))) || called("Conn.processProtectedPacket")
 //@ ensures header-seq-is-allocated: result1 == nil ==> called("Conn.nextLocalSequenceNumber") && pkt.Record.Header.SequenceNumber == retU64("Conn.nextLocalSequenceNumber", 0)
 //@ ensures one-number-per-record: ncalls("Conn.nextLocalSequenceNumber") == 1
+//@ end
+
+// Keying-material exporter (RFC 5705 / RFC 8446 7.5): what is handed to the application is keyed by
+// a handshake secret (master_secret in DTLS 1.2, exporter_master_secret in DTLS 1.3), never by a
+// value that appears in clear in the handshake (session id, randoms, nil).
+//@ define XV13(v) (v.Major == 254 && v.Minor == 252)
+
+//@ func State.ExportKeyingMaterial
+//@ watch prf.PHash! exportKeyingMaterial13
+//@ requires receiver: s != nil
+//@ ensures handshake-in-progress-refused: old(s.localEpoch) == 0 ==> result1 != nil && !called("prf.PHash!") && !called("exportKeyingMaterial13")
+//@ ensures context-refused: len(context) != 0 ==> result1 != nil && !called("prf.PHash!") && !called("exportKeyingMaterial13")
+//@ ensures exporter-keyed-by-master-secret: called("prf.PHash!") ==> sameSlice(argBytes("prf.PHash!", 0), s.masterSecret)
+//@ ensures exporter-output-is-prf: result1 == nil && !XV13(s.version) ==> called("prf.PHash!") && retErr("prf.PHash!", 1) == nil && sameSlice(result0, retBytes("prf.PHash!", 0))
+//@ ensures exporter-length: called("prf.PHash!") ==> argInt("prf.PHash!", 2) == length
+//@ ensures exporter-prf-once: ncalls("prf.PHash!") <= 1 && ncalls("exportKeyingMaterial13") <= 1
+// (engine limit: the contents of append(append([]byte(label), a[:]...), b[:]...) are not tracked, so the
+// RFC 5705 seed order client_random || server_random is only stated as a length.)
+//@ ensures exporter-seed-length: called("prf.PHash!") ==> len(argBytes("prf.PHash!", 1)) == len(label) + 64
+//@ ensures dtls13-exporter-keyed-by-exporter-secret: XV13(s.version) ==> !called("prf.PHash!") && (result1 == nil ==> called("exportKeyingMaterial13"))
+//@    && (called("exportKeyingMaterial13") ==> sameSlice(argBytes("exportKeyingMaterial13", 1), s.exporterSecret))
+//@ ensures dtls13-exporter-output: XV13(s.version) && result1 == nil ==> sameSlice(result0, retBytes("exportKeyingMaterial13", 0)) && retErr("exportKeyingMaterial13", 1) == nil
+//@ ensures dtls13-exporter-label-length: called("exportKeyingMaterial13") ==> argAs("exportKeyingMaterial13", 2, label) == label && argInt("exportKeyingMaterial13", 3) == length
+//@ ensures dtls13-no-secret-no-export: XV13(s.version) && len(s.exporterSecret) == 0 ==> result1 != nil
+//@ ensures dtls12-not-13-exporter: !XV13(s.version) ==> !called("exportKeyingMaterial13")
+//@ ensures secrets-kept: sameSlice(s.masterSecret, old(s.masterSecret)) && sameSlice(s.exporterSecret, old(s.exporterSecret))
+//@ end
+
+// RFC 8446 7.5 with an empty context:
+// HKDF-Expand-Label(Derive-Secret(exporter_master_secret, label, ""), "exporter", Hash(""), length).
+//@ func exportKeyingMaterial13
+//@ watch keyschedule.DeriveSecret keyschedule.HkdfExpandLabel!
+//@ ensures no-secret-no-export: len(exporterSecret) == 0 ==> result1 != nil && isNil(result0)
+//@ ensures no-secret-nothing-derived: len(exporterSecret) == 0 ==> !called("keyschedule.DeriveSecret") && !called("keyschedule.HkdfExpandLabel!")
+//@ ensures derive-keyed-by-exporter-secret: called("keyschedule.DeriveSecret") ==> sameSlice(argBytes("keyschedule.DeriveSecret", 1), exporterSecret)
+//@ ensures derive-label: called("keyschedule.DeriveSecret") ==> argAs("keyschedule.DeriveSecret", 2, label) == label
+//@ ensures derive-error-rejected: called("keyschedule.DeriveSecret") && retErr("keyschedule.DeriveSecret", 1) != nil ==> result1 != nil && !called("keyschedule.HkdfExpandLabel!")
+//@ ensures expand-keyed-by-derived: called("keyschedule.HkdfExpandLabel!") ==> called("keyschedule.DeriveSecret") && sameSlice(argBytes("keyschedule.HkdfExpandLabel!", 1), retBytes("keyschedule.DeriveSecret", 0))
+//@ ensures expand-label-exporter: called("keyschedule.HkdfExpandLabel!") ==> argAs("keyschedule.HkdfExpandLabel!", 2, label) == "exporter"
+//@ ensures expand-length: called("keyschedule.HkdfExpandLabel!") ==> argInt("keyschedule.HkdfExpandLabel!", 4) == length
+//@ ensures output-is-expand: result1 == nil ==> called("keyschedule.HkdfExpandLabel!") && retErr("keyschedule.HkdfExpandLabel!", 1) == nil && sameSlice(result0, retBytes("keyschedule.HkdfExpandLabel!", 0))
+//@ ensures at-most-once: ncalls("keyschedule.DeriveSecret") <= 1 && ncalls("keyschedule.HkdfExpandLabel!") <= 1
+//@ end
+
+// The exported DTLS 1.3 State carries a private copy of the exporter_master_secret of the key schedule.
+//@ func generateState13
+//@ requires args: internalState != nil && internalState.Common != nil
+//@ ensures exporter-secret-copied: result1 == nil ==> bytesEq(result0.exporterSecret, internalState.KeySchedule.ExporterMasterSecret)
+//@ ensures exporter-secret-not-aliased: result1 == nil && len(internalState.KeySchedule.ExporterMasterSecret) > 0 ==> !sameArray(result0.exporterSecret, internalState.KeySchedule.ExporterMasterSecret)
+//@ ensures version13: result1 == nil ==> XV13(result0.version)
+//@ ensures no-master-secret: result1 == nil ==> len(result0.masterSecret) == 0
+//@ ensures no-suite-refused: isNil(internalState.Common.CipherSuite) ==> result1 != nil && result0 == nil
 //@ end
